@@ -775,6 +775,7 @@ def correspond(ctx):
     check_anf(ctx, recs)
     table_stream(ctx)
     make_funsor_stream(ctx)
+    lifetime_stream(ctx)
     ctx.assumptions.append("moment_matching is exercised only where it falls back to eager (no Gaussian mixtures, as the "
                            "property states); transcendental ops are outside the exact fragment of Model/Term.lean")
     ctx.assumptions.append("hash-consing (identity determines the object within one expression) is the hypothesis "
@@ -954,6 +955,120 @@ def make_funsor_stream(ctx):
         ctx.known("KF-memoize-key-cls", False)
 
 
+# ---------------------------------------------------------------------------------------------
+# a cache that outlives its inputs: one dict shared by successive memoize(cache) blocks
+# ---------------------------------------------------------------------------------------------
+
+LIFETIME_SNIPPET = """import gc
+import numpy as np
+from collections import OrderedDict
+import funsor, funsor.ops as ops
+from funsor.domains import Bint
+from funsor.tensor import Tensor
+from funsor.interpretations import memoize
+
+cache, bad = {{}}, 0
+rs = np.random.RandomState({seed})
+for rnd in range({rounds}):
+    a = Tensor(rs.randint(-3, 4, size=(2, 3)).astype(float), OrderedDict(i=Bint[2], j=Bint[3]))
+    b = Tensor(rs.randint(-3, 4, size=(2, 3)).astype(float), OrderedDict(i=Bint[2], j=Bint[3]))
+    with memoize(cache):
+        got = {expr}
+    want = {numpy}
+    bad += not np.array_equal(np.asarray(got.data), want)
+    del a, b, got
+    gc.collect()
+print('rounds with a result computed for other arguments:', bad)
+FAILS = bad > 0
+"""
+
+LIFE_EXPRS = [("ops.add(a, b)", "a.data + b.data"), ("ops.mul(a, b)", "a.data * b.data"),
+              ("a.reduce(ops.add, 'i')", "a.data.sum(0)"), ("ops.neg(a)", "-a.data"),
+              ("ops.add(a, b).reduce(ops.max, 'j')", "(a.data + b.data).max(1)"),
+              ("ops.sub(a, b)", "a.data - b.data")]
+
+
+def lifetime_stream(ctx):
+    """Multi-round histories: fresh leaf tensors (same shapes, different data) are created OUTSIDE the block,
+    a small expression is built under memoize(cache) with the shared dict, compared with numpy, and every
+    reference is dropped + gc.collect() — except in `keep` rounds, which keep the inputs and rebuild the same
+    expression next round (must be a cache hit returning the identical object).  Also checks the model's
+    well-formedness clause on the real heap: no fresh funsor is ever allocated at the address of an argument
+    that a live cache key refers to."""
+    import gc
+    rng = ctx.rng
+    n_hist = 3 if ctx.tier == "quick" else 12
+    for _h in range(n_hist):
+        rounds = rng.randrange(30, 81)
+        seed = rng.randrange(10 ** 6)
+        rs = np.random.RandomState(seed)
+        expr_src, np_src = rng.choice(LIFE_EXPRS)
+        cache = {}
+        key_ids = {}            # id of an argument funsor used in a request of this cache -> round
+        events = []
+        kept = None
+        wrong = None
+        recycled = 0
+        for rnd in range(rounds):
+            if kept is not None:
+                a, b, prev = kept
+                kept = None
+                with memoize(cache):
+                    got = eval(expr_src, {"ops": ops, "a": a, "b": b})
+                ctx.count("lifetime-rounds:kept-inputs")
+                if got is not prev:
+                    ctx.fail("input", "C03.memoize-not-same-object",
+                             witness={"stream": "lifetime", "expr": expr_src, "round": rnd, "seed": seed},
+                             expected="rebuilding the same expression from inputs that are still alive is a cache hit "
+                                      "(identical object)", got="a different object")
+                events.append(["request", id(a), key_ids.get(id(a), rnd)])
+            else:
+                a = Tensor(rs.randint(-3, 4, size=(2, 3)).astype(float), OrderedDict(i=Bint[2], j=Bint[3]))
+                b = Tensor(rs.randint(-3, 4, size=(2, 3)).astype(float), OrderedDict(i=Bint[2], j=Bint[3]))
+                for x in (a, b):
+                    if id(x) in key_ids and key_ids[id(x)] is not None:
+                        recycled += 1      # an address inside a live cache key was handed out again
+                    events.append(["alloc", id(x), rnd])
+                with memoize(cache):
+                    got = eval(expr_src, {"ops": ops, "a": a, "b": b})
+                ctx.count("lifetime-rounds:fresh-inputs")
+                events.append(["request", id(a), rnd])
+            key_ids.setdefault(id(a), rnd)
+            if "b" in expr_src.replace("ops.sub", "").replace("ops.neg", ""):
+                key_ids.setdefault(id(b), rnd)
+            want = eval(np_src, {"a": a, "b": b, "np": np})
+            if not np.array_equal(np.asarray(got.data), want) and wrong is None:
+                wrong = {"round": rnd, "expected": want.tolist(), "got": np.asarray(got.data).tolist()}
+            if rng.random() < 0.2:
+                kept = (a, b, got)
+            else:
+                events.append(["drop", id(a)])
+                events.append(["drop", id(b)])
+            del a, b, got, want
+            gc.collect()
+        ctx.count("lifetime-histories")
+        ctx.count("lifetime-cache-entries", len(cache))
+        # the Lean state machine with object-holding keys must find this history possible
+        ans = ctx.driver.ask1("C03 memolife keep " + sx(events)) if ctx.driver.available() else None
+        if wrong is not None:
+            ctx.fail("input", "C03.memoize-stale-hit",
+                     witness={"stream": "lifetime", "expr": expr_src, "rounds": rounds, "seed": seed, **wrong,
+                              "recycled_key_addresses": recycled},
+                     expected=f"round {wrong['round']}: {wrong['expected']}",
+                     got=f"{wrong['got']} (a result computed for different arguments)",
+                     python=LIFETIME_SNIPPET.format(seed=seed, rounds=rounds, expr=expr_src, numpy=np_src))
+        elif recycled or ans == "ok impossible":
+            ctx.fail("correspondence", "C03.memo-key-does-not-keep-arguments-alive",
+                     witness={"stream": "lifetime", "expr": expr_src, "rounds": rounds, "seed": seed,
+                              "recycled_key_addresses": recycled, "model": ans},
+                     expected="no funsor is allocated at the address of an argument of a live cache key "
+                              "(memo_keys_keep_args_alive's well-formedness)", got=f"{recycled} recycled addresses")
+        else:
+            ctx.count("lifetime-model-history-possible")
+        del cache
+        gc.collect()
+
+
 def demonstrate_collision(A, B, wit):
     """Under memoize(): A(*args) then B(*args) (and the reverse); wrong iff the second result differs in
     value or inputs from B(*args) evaluated without memoize.  -> None | description"""
@@ -1002,6 +1117,7 @@ def search(ctx, broken):
         ctx._c03_table = (entries, probes)
         table_stream(ctx)
         make_funsor_stream(ctx)
+        lifetime_stream(ctx)
     except Exception as e:
         ctx.extra["search_table_error"] = repr(e)[:300]
     if len([f for f in ctx.failures if f.witness is not None]) > before:
